@@ -65,26 +65,28 @@ Definition op_gen : opfun := fun zs qs =>
       | Some hs => Ok (flat_of_rmat n n hs) | None => Err 4 end
   | _, _ => Err (-1) end.
 
-(* zs = [d; which]; qs = basis ++ HS (real n x n) -> calc_h_mat (0) / calc_j_mat as coded (1) / corrected (2) / calc_k_mat (3) *)
+(* zs = [d; which]; qs = basis ++ HS (real n x n) -> calc_h_mat (0) / calc_j_mat (1) / calc_j_mat as coded before fix
+   c18-calc-j-mat-identity-component (2, attribution only) / calc_k_mat (3) *)
 Definition op_extract : opfun := fun zs qs =>
   match zs with
   | [dz; which] => let d := Z.to_nat dz in let n := (d * d)%nat in let m := (n - 1)%nat in
       let '(B, r) := read_basis d qs in let '(HS, _) := read_rmat n n r in
       let L := conv_to_cb d B (cof HS) in
       if (which =? 0)%Z then Ok (flat_of_cmat d d (calc_h_mat d B L))
-      else if (which =? 1)%Z then Ok (flat_of_cmat d d (calc_j_mat_code d B L))
-      else if (which =? 2)%Z then Ok (flat_of_cmat d d (calc_j_mat_fix d B L))
+      else if (which =? 1)%Z then Ok (flat_of_cmat d d (calc_j_mat d B L))
+      else if (which =? 2)%Z then Ok (flat_of_cmat d d (calc_j_mat_prefix d B L))
       else Ok (flat_of_cmat m m (calc_k_mat d B L))
   | _ => Err (-1) end.
 
-(* zs = [d; which; jfix; herm]; qs = basis ++ HS -> calc_h_part (0) / calc_j_part (1) / calc_k_part (2) / calc_d_part (3) /
-   rebuilt generator h+j+k (4); comp basis (herm = 0) or converted to B (herm = 1; complex, before truncation) *)
+(* zs = [d; which; prefix; herm]; qs = basis ++ HS -> calc_h_part (0) / calc_j_part (1) / calc_k_part (2) / calc_d_part (3) /
+   rebuilt generator h+j+k (4); prefix <> 0: with calc_j_mat as coded before the fix (attribution only);
+   comp basis (herm = 0) or converted to B (herm = 1; complex, before truncation) *)
 Definition op_parts : opfun := fun zs qs =>
   match zs with
-  | [dz; which; jfix; herm] => let d := Z.to_nat dz in let n := (d * d)%nat in let m := (n - 1)%nat in
+  | [dz; which; prefix; herm] => let d := Z.to_nat dz in let n := (d * d)%nat in let m := (n - 1)%nat in
       let '(B, r) := read_basis d qs in let '(HS, _) := read_rmat n n r in
       let L := conv_to_cb d B (cof HS) in
-      let jm := cfrz d d ((if (jfix =? 0)%Z then calc_j_mat_code else calc_j_mat_fix) d B L) in
+      let jm := cfrz d d ((if (prefix =? 0)%Z then calc_j_mat else calc_j_mat_prefix) d B L) in
       let hp := fun _ : unit => h_part d (cfrz d d (calc_h_mat d B L)) in
       let jp := fun _ : unit => j_part d jm in
       let kp := fun _ : unit => k_part d B (cfrz m m (calc_k_mat d B L)) in
@@ -94,14 +96,32 @@ Definition op_parts : opfun := fun zs qs =>
       Ok (flat_of_cmat n n (if (herm =? 0)%Z then P else conv_to_B d B P))
   | _ => Err (-1) end.
 
-(* zs = [d; k; variant; herm]; qs = basis ++ k jump operators -> d part from jump operators: as coded (variant 0),
-   GKSL (1); j part only as coded (2), k part only (3) *)
+(* zs = [d]; qs = basis ++ HS -> all of op_parts (prefix = 0) in ONE call (the extracted matrices are computed once):
+   h, j, k, d parts in the comp basis, then h, j, k, d parts and the rebuilt generator converted to B : 9 complex n x n matrices *)
+Definition op_parts_all : opfun := fun zs qs =>
+  match zs with
+  | [dz] => let d := Z.to_nat dz in let n := (d * d)%nat in let m := (n - 1)%nat in
+      let '(B, r) := read_basis d qs in let '(HS, _) := read_rmat n n r in
+      let L := conv_to_cb d B (cof HS) in
+      let hp := cfrz n n (h_part d (cfrz d d (calc_h_mat d B L))) in
+      let jp := cfrz n n (j_part d (cfrz d d (calc_j_mat d B L))) in
+      let kp := cfrz n n (k_part d B (cfrz m m (calc_k_mat d B L))) in
+      let dp := cfrz n n (madd jp kp) in
+      let wh := cfrz n n (madd (madd hp jp) kp) in
+      let out := fun P => flat_of_cmat n n P in
+      Ok (out hp ++ out jp ++ out kp ++ out dp ++ out (conv_to_B d B hp) ++ out (conv_to_B d B jp) ++ out (conv_to_B d B kp)
+          ++ out (conv_to_B d B dp) ++ out (conv_to_B d B wh))
+  | _ => Err (-1) end.
+
+(* zs = [d; k; variant; herm]; qs = basis ++ k jump operators -> d part from jump operators (variant 0), j part (2), k part (3);
+   as coded before fix c18-jump-operators-cdagger-c (attribution only): d part (1), j part (4) *)
 Definition op_jump : opfun := fun zs qs =>
   match zs with
   | [dz; kz; variant; herm] => let d := Z.to_nat dz in let n := (d * d)%nat in
-      let '(B, r) := read_basis d qs in let '(cs, _) := read_cmats (Z.to_nat kz) d d r in
-      let P := if (variant =? 0)%Z then jump_d_code d cs else if (variant =? 1)%Z then jump_d_gksl d (map (cfrz d d) cs)
-               else if (variant =? 2)%Z then jump_j_code d cs else jump_k d cs in
+      let '(B, r) := read_basis d qs in let '(cs0, _) := read_cmats (Z.to_nat kz) d d r in
+      let cs := map (cfrz d d) cs0 in
+      let P := if (variant =? 0)%Z then jump_d d cs else if (variant =? 1)%Z then jump_d_prefix d cs
+               else if (variant =? 2)%Z then jump_j d cs else if (variant =? 3)%Z then jump_k d cs else jump_j_prefix d cs in
       let P := cfrz n n P in
       Ok (flat_of_cmat n n (if (herm =? 0)%Z then P else conv_to_B d B P))
   | _ => Err (-1) end.
@@ -139,6 +159,21 @@ Definition op_verdict : opfun := fun zs qs =>
       Ok [qb tp; qb hm; qb ps; qb (hm && ps); qb (tp && (hm && ps))]
   | _, _ => Err (-1) end.
 
+(* zs = [d; k]; qs = atol_1 .. atol_k ++ basis ++ HS -> op_verdict for k tolerances with the k matrix extracted once *)
+Definition op_verdicts : opfun := fun zs qs =>
+  match zs with
+  | [dz; kz] => let d := Z.to_nat dz in let n := (d * d)%nat in let m := (n - 1)%nat in
+      let atols := firstn (Z.to_nat kz) qs in
+      let '(B, r) := read_basis d (skipn (Z.to_nat kz) qs) in let '(HS, _) := read_rmat n n r in
+      let K := cfrz m m (calc_k_mat d B (conv_to_cb d B (cof HS))) in
+      let Kh := cfrz m m (herm_part K) in
+      Ok (flat_map (fun atol =>
+            let tp := is_tp_dec Qc_OF n atol HS in
+            let hm := herm_tol Qc_OF m atol K in
+            let ps := psd_fast (m + m) (shiftI Qc_OF atol (embed Qc_OF m Kh)) in
+            [qb tp; qb hm; qb ps; qb (hm && ps); qb (tp && (hm && ps))]) atols)
+  | _ => Err (-1) end.
+
 (* zs = [d; sparse]; qs = basis ++ K -> j_mat from k_mat (slow formula / through the table) *)
 Definition op_j_of_k : opfun := fun zs qs =>
   match zs with
@@ -162,18 +197,21 @@ Definition op_tab_col : opfun := fun zs qs =>
       else Ok (flat_of_cplx (list_of_vec n (fun r => tab_j d B r c)))
   | _ => Err (-1) end.
 
-(* zs = [n; what; on_eq]; qs = reals.  what 0: proj_eq (matrix n x n)  1: to_var  2: from_var as coded  3: from_var corrected
-   4: inherited eq projection on variables (as coded)  5: corrected *)
-Definition op_eqvar : opfun := fun zs qs =>
+(* zs = [n]; qs = real n x n -> calc_proj_eq_constraint (first row zeroed) *)
+Definition op_proj_eq : opfun := fun zs qs =>
   match zs with
-  | [nz; what; oe] => let n := Z.to_nat nz in let on_eq := negb (oe =? 0)%Z in
-      let nv := if on_eq then ((n - 1) * n)%nat else (n * n)%nat in
-      if (what =? 0)%Z then Ok (flat_of_rmat n n (proj_eq (rmat_of_flat n n qs)))
-      else if (what =? 1)%Z then Ok (list_of_vec nv (to_var Qc_OF n on_eq (rmat_of_flat n n qs)))
-      else if (what =? 2)%Z then Ok (flat_of_rmat n n (from_var_code Qc_OF n on_eq (vec_of_list 0%Qc qs)))
-      else if (what =? 3)%Z then Ok (flat_of_rmat n n (from_var_fix Qc_OF n on_eq (vec_of_list 0%Qc qs)))
-      else if (what =? 4)%Z then Ok (list_of_vec nv (proj_eq_var_code Qc_OF n on_eq (vec_of_list 0%Qc qs)))
-      else Ok (list_of_vec nv (proj_eq_var_fix Qc_OF n on_eq (vec_of_list 0%Qc qs)))
+  | [nz] => let n := Z.to_nat nz in Ok (flat_of_rmat n n (proj_eq (rmat_of_flat n n qs)))
+  | _ => Err (-1) end.
+
+(* zs = [d]; qs = basis ++ HS (real n x n) ++ K' (complex m x m) -> calc_proj_ineq_constraint with the clipped matrix K'
+   supplied (numpy eig is an oracle): proj_ineq_cb converted to B (complex, before truncation) *)
+Definition op_proj_ineq : opfun := fun zs qs =>
+  match zs with
+  | [dz] => let d := Z.to_nat dz in let n := (d * d)%nat in let m := (n - 1)%nat in
+      let '(B, r) := read_basis d qs in let '(HS, r1) := read_rmat n n r in let '(K', _) := read_cmat m m r1 in
+      let L := conv_to_cb d B (cof HS) in
+      let P := cfrz n n (lcb_hjk d B (cfrz d d (calc_h_mat d B L)) (cfrz d d (calc_j_mat d B L)) K') in
+      Ok (flat_of_cmat n n (conv_to_B d B P))
   | _ => Err (-1) end.
 
 (* zs = [n]; qs = eps :: complex n x n -> _truncate_hs (Err 4: imaginary part left) *)
@@ -221,7 +259,7 @@ Definition op_texp : opfun := fun zs qs =>
 
 Definition C18_ops : optable :=
   [ ("c18.lcb"%string, op_lcb); ("c18.gen"%string, op_gen); ("c18.extract"%string, op_extract);
-    ("c18.parts"%string, op_parts); ("c18.jump"%string, op_jump); ("c18.gksl"%string, op_gksl);
+    ("c18.parts"%string, op_parts); ("c18.parts_all"%string, op_parts_all); ("c18.verdicts"%string, op_verdicts); ("c18.jump"%string, op_jump); ("c18.gksl"%string, op_gksl);
     ("c18.gksl_jump"%string, op_gksl_jump); ("c18.apply_cb"%string, op_apply_cb); ("c18.verdict"%string, op_verdict);
     ("c18.j_of_k"%string, op_j_of_k); ("c18.k_part"%string, op_k_part); ("c18.tab_col"%string, op_tab_col);
-    ("c18.eqvar"%string, op_eqvar); ("c18.trunc"%string, op_trunc); ("c18.texp"%string, op_texp) ].
+    ("c18.proj_eq"%string, op_proj_eq); ("c18.proj_ineq"%string, op_proj_ineq); ("c18.trunc"%string, op_trunc); ("c18.texp"%string, op_texp) ].
